@@ -53,11 +53,7 @@ func (w *World) execPreload(st *Step, s *Sched) *Violation {
 	ids := w.preloadIDs(st)
 	if st.Keep && len(ids) > 0 {
 		w.Storage.DropCache()
-		for _, cid := range w.sortedHandleCIDs() {
-			if c := w.Model.Conts[cid]; c == nil || c.Parent != nil {
-				delete(w.Handles, cid)
-			}
-		}
+		w.Handles = map[int]any{}
 	}
 	workers := st.Workers
 	if workers <= 0 {
@@ -234,11 +230,7 @@ func (w *World) commitWithEncodeFailure(st *Step, cv concVariant, r *Rng) *Viola
 func (w *World) preloadWithDecodeFailure(st *Step, cv concVariant, r *Rng) *Violation {
 	ids := w.preloadIDs(st)
 	w.Storage.DropCache()
-	for _, cid := range w.sortedHandleCIDs() {
-		if c := w.Model.Conts[cid]; c == nil || c.Parent != nil {
-			delete(w.Handles, cid)
-		}
-	}
+	w.Handles = map[int]any{}
 	// a storage whose decoder can be armed: the world's decoders use w.Ctl
 	w.Ctl.Reset()
 	w.Ctl.FailAt["decode"] = cv.FailDecode
